@@ -76,6 +76,8 @@ impl Cur {
 pub enum By {
     Id,
     Handle,
+    /// by the temporary id of the item's handle (`!A3`, `!R0`, `!S1`, `!K2`, `!D5`), whether or not it has a public id
+    Temp,
 }
 
 /// Reference to an item by creation index (taken modulo the number of items of that kind ever
